@@ -91,7 +91,9 @@ def run_cvrs(tid, vendor, n, rng):
         man = pd.DataFrame({"Container": ["b1", "b2"], "Tabulator": ["7", "7"], "Batch Name": ["1", "2"],
                             "Number of Ballots": ["50", "50"]})
         V = Hart
-    cvrs = [CVR(id=i, votes={"c": {"A": 1}}, phantom=ph, card_in_batch=k) for k, (i, ph) in enumerate(zip(ids, phantom))]
+    # the position of a card in its physical batch is not the record number in its identifier (and may be unset)
+    cvrs = [CVR(id=i, votes={"c": {"A": 1}}, phantom=ph, card_in_batch=rng.choice([k, k + 100, None]))
+            for k, (i, ph) in enumerate(zip(ids, phantom))]
     sample = rng.sample(range(n), rng.randint(0, n))
     rec = {"kind": "cvrs", "tid": tid, "vendor": vendor, "ids": ids, "phantom": phantom, "sample": sample}
     try:
@@ -112,6 +114,13 @@ def run(pid, tier):
     rep = Report(pid, tier)
     core.import_repo()
     rng = random.Random(core.seed() * 4409 + 5)
+    manifest_part(rep, tier, rng)
+    return rep.finish()
+
+
+def manifest_part(rep, tier, rng, want=None):
+    """want: clause patterns to report (None = all); used by C08 for the phantom batch / phantom manual records"""
+    import fnmatch
     maxb = 3 if tier == "quick" else 4
     res = mc(maxb, 3, 3)
     rep.add_tlc("MC ManifestMC", res, consts={"MaxBatches": maxb, "MaxSize": 3, "Slack": 3})
@@ -143,6 +152,8 @@ def run(pid, tier):
     for tid, clauses in rejects.items():
         r = byid[tid]
         for cl in clauses:
+            if want is not None and not any(fnmatch.fnmatchcase(cl, w) for w in want):
+                continue
             rep.violation(f"{r['vendor']}.{'manifest' if r['kind'] == 'manifest' else 'sample_from_cvrs'}", cl,
                           f"record {tid}: clause {cl}", r)
     for r in recs:
@@ -151,4 +162,3 @@ def run(pid, tier):
         rep.sample(r)
     rep.assumptions += ["batch rows are identified through distinct batch numbers in the card identifiers",
                         "every valid sample number is looked up (identity order or a seeded permutation)"]
-    return rep.finish()
